@@ -10,6 +10,12 @@ def repo_fix_and_hook_commits():
     return hooks
 
 CHECKS = {
+ 'C09': dict(level='exploration', design='6 C09', technique='deterministic simulation: 2-4 real CloudServer clients over a gated in-memory object store, every request and list page a scheduling point; chain-specific linearizability oracle over the invoke/return history and the log of compare-and-swaps on latest',
+   text='Seeded interleavings at single get/put/delete/list-page/compare-and-swap granularity with seeded listing order and page sizes; oracles: one accepted child per parent, accepted on the then-latest, every accepted version on the final chain, reads return only chain versions under the requested parent with the submitted bytes and never before commit, no-such-version and rejections are consistent with what was latest during the call, a fresh client walks the full chain.',
+   note='Hook: taskchampion::server::verif (in-memory Service behind a Gate). The object store is linearizable per request; cloud/aws.rs and cloud/gcp.rs adapters never run. Cleanup is disabled here (C10).'),
+ 'C10': dict(level='exploration', design='6 C10', technique='deterministic simulation with fault injection: as C09 plus cleanup runs (explicit and dice-driven) interleaved at request granularity, simulated clock jumps across the retention age, cleanups stopped after any request; store-usability predicate read independently from the object map plus a fresh client',
+   text='After every ended (completed or stopped) cleanup and at the end, the object map must still let every client work: the walk back from latest reaches the first version or a version covered by a retained snapshot, snapshots the cleanup kept are usable starting points, and a fresh client gets from snapshot/nil to latest.',
+   note='Time jumps only while no client operation is in flight (no request spans 180 days); a snapshot is uploaded by the client that just had its version accepted, as Replica::sync does.'),
  'C17': dict(level='exploration', design='6 C17', technique='deterministic simulation: 2-8 real SqliteStorage handles on one directory, every storage call a scheduling point of the seeded scheduler, real SQLite lock waits issued deliberately (one waiter at a time); linearizability audit of the stored log against a sequential model in commit order',
    text='Each handle has its own connection and actor thread; the seeded scheduler interleaves the handles at single-storage-call granularity and makes BEGIN IMMEDIATE really block behind another handle\'s transaction. Afterwards a fresh handle must find an operation log equal to the successful commits concatenated in the order their commits returned, tasks equal to their one-at-a-time application (undo included), and a duplicate-free working set.',
    note='Handles are futures in one process (separate connections and threads); separate OS processes are not exercised. Who waits for the lock is the simulator\'s choice; two simultaneous waiters are never created because SQLite\'s real-time back-off would choose between them.'),
